@@ -3,6 +3,7 @@
    construct / exhausted fuel halts it (like break_flag), so errors propagate to the result. *)
 From Sakura.Model Require Import Base Cursor Length Event Song Token LoopMachine LexCore Tie RunRsv.
 From Sakura.Model Require Reserve.
+From Sakura.Model Require Utf8.
 From Sakura.Model Require Cmd.   (* the event shapes of the command arms (property C15): used qualified *)
 From Sakura.Gen Require Import Messages.
 From Coq Require Import String.
@@ -10,6 +11,7 @@ Open Scope string_scope.
 Open Scope Z_scope.
 
 Definition U_RUN_TRACKNO := 20. Definition U_RUN_TIE := 21. Definition U_RUN_VSUB := 22. Definition U_RUN_LOOPCOUNT := 23.
+Definition U_RUN_CHAR := 24. Definition U_RUN_SIZE := 25.
 
 Definition note_len_real (notelen qlen : Z) : Z := Z.quot (notelen * qlen) 100.
    (* (notelen as f32 * qlen as f32 / 100.0) as isize ; exact while notelen*qlen < 2^24 and the quotient < 2^17 *)
@@ -319,6 +321,14 @@ Section Exec.
         else Ok (upd_cur s (fun t => on_rt t (fun k => Reserve.write_cc_on_time k 11 [v1; v2; l])))
     | TPlay args lineno => exec_play exec_children s args lineno
     | TDefStr name v => Ok (s_set_vars s ((name, def_str_value v) :: s_vars s))
+    | TMetaText ty a =>
+        (* exec_args(..)[0].to_s(): the text, the decimal text of an integer, "" for no value; cut below 128 bytes.
+           The meta type is the tag of the table row (1..7 there; 0..127 without End Of Track (47) is what a meta event can carry);
+           a text with a value that is no Rust `char` is no input of the code *)
+        let txt := marg_to_s a in
+        if (0 <=? ty) && (ty <? 128) && negb (ty =? 47) && forallb Utf8.is_char txt
+        then Ok (add_events s (fun tp _ => Cmd.cmd_meta_text tp ty txt))
+        else Unsupported U_RUN_CHAR
     end.
 
   Definition step_tok (t : tok) (s : res song) : res song := do sg <- s; step_song t sg.
